@@ -208,7 +208,11 @@ def run_from_structure(case):
     st_.translate_sites(list(range(len(st_))), case['origin'], frac_coords=True, to_unit_cell=True)
     if len(st_) > 200:
         raise Skip()
-    ops_i = [(np.array(o.rotation_matrix, float), np.array(o.translation_vector, float)) for o in SpacegroupAnalyzer(st_).get_space_group_operations()]
+    try:
+        sga_ops = SpacegroupAnalyzer(st_).get_space_group_operations()
+    except Exception:  # noqa: BLE001 - spglib cannot determine the symmetry of this generated structure: outside the precondition
+        raise Skip() from None
+    ops_i = [(np.array(o.rotation_matrix, float), np.array(o.translation_vector, float)) for o in sga_ops]
     an = gcall(ShapeAnalyzer.from_structure, st_)
     radius = case['radius']
     # positions: near the atoms of the structure (which are the symmetry images of the unique site) + uniform points
